@@ -149,6 +149,11 @@ def gen_cases(rng, ctx):
         model = line("c07_run", [[T]] + b.ops)
         cases.append(Case(impl, model, kind="live:" + fam, nontrivial=True,
                           meta={"ops": b.ops, "gauge": b.expect_gauge}))
+    # the SOCKS5 multiplexer (socks5_forwarder.rs): CONNECT _udp2 through the real endpoint with a SOCKS5 upstream; each client source
+    # address gets its own association with a scripted SOCKS5 server; every flow's reply has to come back, labelled for its flow
+    for ext, n_, ln in ((0, 3, 20), (1, 5, 600), (0, 1, 1), (0, 8, 64)) + (((1, 12, 1200), (0, 6, 1)) if thorough else ()):
+        l = line("c15_udp_front", [[ext, n_, ln, 0]])
+        cases.append(Case(l, None, kind="live:socks5-associations", nontrivial=n_ > 1, meta={"socks_udp": True, "n": n_, "len": ln, "ext": ext}))
     # an error on the reading side of a flow's socket (the peer answered and went away, the client sent once more)
     for t in ([300, 200, 500] if thorough else [300, 200]):
         l = line("c07_read_error", [[t]])
@@ -160,6 +165,21 @@ def judge(case, impl, model, spec, ctx):
     if impl == "999":
         return [("violation", "the multiplexer harness panicked")]
     if impl == "996":
+        return []
+    if case.meta.get("socks_udp"):
+        m = case.meta
+        st, good, label, controls, relayed, headers_ok, payloads_ok = untok(impl.split()[0])
+        what = "UDP multiplexer over a SOCKS5 upstream, %d client flows (one datagram of %d bytes each, distinct source ports), the peer answers each" % (m["n"], m["len"])
+        if st != 200:
+            return [("disagree", "%s: CONNECT _udp2 answered %d" % (what, st))]
+        if relayed != m["n"] or payloads_ok != m["n"]:
+            return [("violation", "%s: the relay received %d datagrams (%d with the payload intact)" % (what, relayed, payloads_ok))]
+        if good != m["n"]:
+            return [("violation", "%s: only %d of %d replies came back to the client" % (what, good, m["n"]))]
+        if label != m["n"]:
+            return [("violation", "%s: %d of %d replies are labelled with their flow's destination as source and its source as destination" % (what, label, m["n"]))]
+        if controls != m["n"] + 1:
+            return [("disagree", "%s: the SOCKS5 server saw %d control connections" % (what, controls))]
         return []
     if case.meta.get("read_error"):
         q1, later, reply, by, alive, left, free = untok(impl.split()[0])
